@@ -44,3 +44,8 @@ Print Assumptions C17_slice.
 (** what was wrong on the pinned tree (fixed by 24d7404) *)
 Theorem C17_pinned_refuted : mirrored (vexec_calls pinned_calls) = false /\ data_intact (vexec_calls pinned_calls) = false.
 Proof. exact VmemFacts.pinned_calls_refuted. Qed.
+
+(** the body of vmem_helper::get_page_size_mul, translated from the source on every run, is the Model's rounding for all inputs *)
+Theorem C17_round_source : forall page m, 0 < page -> VmemCalls.page_round page m = page_mul page m.
+Proof. intros page m Hp. unfold VmemCalls.page_round, page_mul. rewrite VmemFacts.div_ceil_eq by exact Hp. reflexivity. Qed.
+Print Assumptions C17_round_source.
